@@ -27,6 +27,18 @@ def mem_bytes(k, v):
     return struct.pack('<' + SFMT[k], float(v) if k in (5, 6) else v)
 
 
+RANGE = {1: (-128, 127), 2: (0, 255), 3: (-32768, 32767), 4: (-2**31, 2**31 - 1), 7: (0, 255), 8: (0, 65535),
+         9: (0, 2**32 - 1), 10: (-2**63, 2**63 - 1), 11: (0, 2**64 - 1)}
+
+
+def fits(k, v):
+    """value v is representable in memory type k (an element that is not makes NC_ERANGE legitimate)"""
+    if k in (5, 6):
+        return True
+    lo, hi = RANGE[k]
+    return lo <= v <= hi
+
+
 def ext_bytes(xt, v):
     return struct.pack('>' + SFMT[xt], float(v) if xt in (5, 6) else v)
 
